@@ -129,7 +129,7 @@ def run(tier: str) -> int:
     n_e = 0
     for n in range(1, maxn + 1):
         for e in exprs(leaves if n < 5 else leaves[:3], n):
-            for mode in ("+", "+=", "+=alias"):
+            for mode in ("+", "+=", "+=alias", "+sub", "+=sub"):
                 lines.append(f"hexpr {mode} {enc(e)}")
             n_e += 1
     ck.exhaustive_scopes.append({"scope": f"all expressions with <= {maxn} operands over {{str '&', HTML '<b>', str 'a', other '<7>'}} x all groupings x {{+, +=}}",
@@ -146,7 +146,7 @@ def run(tier: str) -> int:
                 return ("L", kind, s)
             j = rng.randint(1, k - 1)
             return ("A", build(j), build(k - j))
-        lines.append(f"hexpr {rng.choice(['+', '+=', '+=alias'])} {enc(build(n))}")
+        lines.append(f"hexpr {rng.choice(['+', '+=', '+=alias', '+sub', '+=sub'])} {enc(build(n))}")
     impl = core.impl_many(lines)
     for l, im in zip(lines, impl):
         ck.add(l, im, nontrivial=(" h " in l and (" p " in l or " o " in l)), tag="hexpr")
